@@ -265,6 +265,6 @@ NOT_APPLICABLE = [
 # `props: XDEV` (experiments being brought up) without touching any claimed property's check
 import os as _os
 if _os.environ.get("VERIF_DEV"):
-    PROPS["XDEV"] = {"kani_args": ["CBMC:--unwindset", "CBMC:memcmp.0:18"], "level": "other", "design_ref": "-",
+    PROPS["XDEV"] = {"kani_args": ["CBMC:--unwindset", "CBMC:memcmp.0:40"], "level": "other", "design_ref": "-",
                      "technique": "-", "level_text": "-", "level_note": "-", "assumptions": [], "explanation": "-",
                      "not_decided": []}
